@@ -243,6 +243,8 @@ def sqlite_columns(tier):
         s = sel[t]
         if not (len(s.where) == 1 and s.where[0][0] == gc and s.where[0][1] == '='):
             r.fail(f'O2/{t}/snapshot-filter', f'snapshot of {t} is not filtered by exactly its group column: {s.text[:90]}')
+        if s.limit is not None:
+            r.fail(f'O2/{t}/snapshot-truncated', f'the snapshot of {t} reads at most LIMIT {s.limit} rows: the remaining rows of the group are missing from the snapshot and are destroyed by a rollback')
         selected = cols if s.select == ['*'] else s.select
         auto = {c for c in cols if c in ('id',) and tables[t].pk == ['id']} | {'provider_version'}
         missing_sel = [c for c in cols if c not in selected and c not in auto]
@@ -256,6 +258,30 @@ def sqlite_columns(tier):
             stale = [c for c in ins[t].cols if c not in tgt and c not in sets]
             if nothing or stale:
                 r.fail(f'O2/{t}/upsert-stale', f'restore upsert of {t} leaves column(s) {stale or "all"} at their current value')
+    # the OTHER snapshots of the group are deleted by the cascade and put back: they must come back unchanged, age included
+    others_sel = [x for x in rest_prog if x.kind == 'SELECT' and x.table == 'group_state_snapshots' and any(isinstance(c, tuple) and c[0] == 'snapshot_name' and c[1] in ('!=', '<>') for c in (x.where or []))]
+    others_ins = [x for x in rest_prog if x.kind == 'INSERT' and x.table == 'group_state_snapshots']
+    if others_ins:
+        n += 1
+        scols = tables['group_state_snapshots'].colnames()
+        gcol = group_col(tables, 'group_state_snapshots')
+        ins_ = others_ins[-1]
+        miss = [c for c in scols if c not in ins_.cols and not (tables['group_state_snapshots'].pk == ['id'] and c == 'id')]
+        if miss:
+            r.fail('O2/other-snapshots/column-not-restored', f'the other snapshots of the group are re-inserted without column(s) {miss}')
+        mv = re.search(r'VALUES\s*\((.*?)\)\s*(?:ON CONFLICT|$)', ins_.text, re.I | re.S)
+        vals = [v.strip() for v in S.split_top(mv.group(1))] if mv else []
+        computed = [c for c, v in zip(ins_.cols, vals) if not re.fullmatch(r'\?\d*', v)]
+        if computed:
+            r.fail('O2/other-snapshots/column-recomputed', f'the other snapshots of the group are re-inserted with column(s) {computed} computed anew ({[v for v in vals if not re.fullmatch(r"[?][0-9]*", v)]}) '
+                   'instead of carrying the stored value: a surviving snapshot changes (e.g. its age restarts, so it outlives the time-to-live)')
+        if not others_sel:
+            r.fail('O2/other-snapshots/not-read', 'other snapshots are re-inserted but never read before the cascade')
+        else:
+            sel_cols = scols if others_sel[0].select == ['*'] else others_sel[0].select
+            lost = [c for c in scols if c not in sel_cols and c != gcol and not (tables['group_state_snapshots'].pk == ['id'] and c == 'id')]
+            if lost:
+                r.fail('O2/other-snapshots/column-not-read', f'column(s) {lost} of the other snapshots are not read before the cascade deletes them: they cannot be put back unchanged')
     r.cases = n
     r.queries = 0
     r.functions = ['snapshot_group_state', 'restore_group_from_snapshot', 'migrations/V*.sql']
